@@ -65,7 +65,7 @@ def main(argv=None) -> int:
         if jobs:
             r = seed % len(jobs)
             jobs = jobs[r:] + jobs[:r]
-        results = explore.pmap(mod.__name__, "run_job", jobs)
+        results = explore.pmap(mod.__name__, "run_job", jobs, fresh=getattr(mod, "FRESH_PROCESS_PER_JOB", False))
         acc = explore.Acc.merge(results)
 
     known = [k for k in load_findings() if k.get("property") == pid]
